@@ -572,6 +572,21 @@ func (g *gen) stops() []generate.GradientStop {
 			off = 1024
 		}
 	}
+	if g.cfg.WildStops {
+		// a caller may hand over any color.Color: the helper converts, and must
+		// not store the conversion back into the caller's slice
+		for i := range out {
+			c := out[i].Color.(color.RGBA)
+			switch t.Pick(3, 1, 1, 1) {
+			case 1:
+				out[i].Color = color.NRGBA{c.R, c.G, c.B, c.A}
+			case 2:
+				out[i].Color = color.Gray16{uint16(c.R)<<8 | uint16(c.G)}
+			case 3:
+				out[i].Color = color.RGBA64{uint16(c.R) * 0x101, uint16(c.G) * 0x101, uint16(c.B) * 0x101, uint16(c.A) * 0x101}
+			}
+		}
+	}
 	if g.cfg.WildStops && n > 1 && t.Bool() {
 		// document order rather than offset order, duplicates included
 		for i := n - 1; i > 0; i-- {
